@@ -325,10 +325,104 @@ func runSelfTest(repo, verif, prop string) selfTestResult {
 	if nSkip > 0 {
 		sum += fmt.Sprintf("; %d variants do not apply to this tree (their edit anchor is gone or the edited tree does not build) and were skipped", nSkip)
 	}
+	// the stored changes of independent sub-agents: the property's own seeded breaking changes must be reported, every
+	// stored behaviour-preserving refactoring must leave the property's check silent (each applied to a scratch copy of
+	// the tree under analysis and analysed, never executed; patches that do not apply to this tree are skipped)
+	pSum, pFails := runStoredPatches(repo, verif, prop)
+	sum += "; " + pSum
+	fails = append(fails, pFails...)
 	if len(fails) > 0 {
 		sum += "; FAILED: " + strings.Join(fails, " || ")
 	}
 	return selfTestResult{summary: sum, broken: len(fails) > 0}
+}
+
+// runStoredPatches applies seeded/<prop>-*/patch.diff (expected: reported, unless its meta.json says no check reports
+// it) and benign/*.diff (expected: silent; benign/pending holds the documented false alarms and is not used).
+func runStoredPatches(repo, verif, prop string) (string, []string) {
+	type job struct {
+		name, path string
+		wantAlarm  bool
+	}
+	var jobs []job
+	seeds, _ := filepath.Glob(filepath.Join(verif, "seeded", prop+"-*", "patch.diff"))
+	sort.Strings(seeds)
+	for _, sp := range seeds {
+		meta, err := os.ReadFile(filepath.Join(filepath.Dir(sp), "meta.json"))
+		if err != nil || !strings.Contains(string(meta), `"detected_by": [`+"\n") {
+			continue // recorded as not decided by any check (a wrong value, not a wrong shape)
+		}
+		jobs = append(jobs, job{"seed " + filepath.Base(filepath.Dir(sp)), sp, true})
+	}
+	benign, _ := filepath.Glob(filepath.Join(verif, "benign", "*.diff"))
+	sort.Strings(benign)
+	for _, bp := range benign {
+		jobs = append(jobs, job{"refactoring " + strings.TrimSuffix(filepath.Base(bp), ".diff"), bp, false})
+	}
+	type outcome struct {
+		skipped bool
+		fail    string
+	}
+	outs := make([]outcome, len(jobs))
+	sem := make(chan struct{}, 8)
+	var wg sync.WaitGroup
+	self, _ := os.Executable()
+	for i, j := range jobs {
+		wg.Add(1)
+		go func(i int, j job) {
+			defer wg.Done()
+			sem <- struct{}{}
+			defer func() { <-sem }()
+			dir, err := os.MkdirTemp("", "twpatch-")
+			if err != nil {
+				outs[i].fail = j.name + ": " + err.Error()
+				return
+			}
+			defer os.RemoveAll(dir)
+			if out, err := exec.Command("cp", "-r", repo+"/.", dir).CombinedOutput(); err != nil {
+				outs[i].fail = fmt.Sprintf("%s: copy: %v %s", j.name, err, out)
+				return
+			}
+			os.RemoveAll(filepath.Join(dir, ".git"))
+			pc := exec.Command("patch", "-s", "-p1", "--no-backup-if-mismatch", "-i", j.path)
+			pc.Dir = dir
+			if err := pc.Run(); err != nil {
+				outs[i].skipped = true // written against another state of the tree
+				return
+			}
+			cmd := exec.Command(self, "-prop", prop, "-tier", "quick", "-repo", dir, "-verif", verif, "-no-evidence")
+			cmd.Env = append(cleanEnv(), "TWCHECK_VARIANT=1")
+			out, err := cmd.CombinedOutput()
+			code := 0
+			if ee, ok := err.(*exec.ExitError); ok {
+				code = ee.ExitCode()
+			}
+			switch {
+			case code == 2:
+				outs[i].skipped = true // does not load / type-check on this tree
+			case j.wantAlarm && code != 1:
+				outs[i].fail = j.name + ": a stored breaking change is no longer reported"
+			case !j.wantAlarm && code != 0:
+				outs[i].fail = j.name + ": a stored behaviour-preserving refactoring is reported: " + lastLines(string(out), 2)
+			}
+		}(i, j)
+	}
+	wg.Wait()
+	nSeed, nBen, nSkip := 0, 0, 0
+	var fails []string
+	for i, o := range outs {
+		switch {
+		case o.skipped:
+			nSkip++
+		case o.fail != "":
+			fails = append(fails, o.fail)
+		case jobs[i].wantAlarm:
+			nSeed++
+		default:
+			nBen++
+		}
+	}
+	return fmt.Sprintf("%d stored breaking changes of this property reported and %d stored refactorings silent (%d patches do not apply to this tree and were skipped)", nSeed, nBen, nSkip), fails
 }
 
 func lastLines(s string, n int) string {
